@@ -38,6 +38,16 @@ def lookup(ip, st, recv, name):
             # entry with a concrete number (1..4) of note lists, each an arbitrary list of Optional[str]
             inner = [st.new_symlist(fresh('desc%d' % i, DESC_TY[1]).t, ('opt', 'str')) for i in range(n)]
             desc = st.new_list(inner, DESC_TY[1])
+        # definition of the table's per-name flags at the name being rendered (C02's call-site vocabulary)
+        orig = st.ghost.get('orig_name')
+        if orig is not None and n is not None:
+            cat = p.f['cat']
+            f1 = ip.specs.call(ip, st, 'has_some', [inner[1]], {}) if n > 1 else False
+            f2 = ip.specs.call(ip, st, 'has_some', [inner[2]], {}) if n > 2 else False
+            af = ip.specs.call(ip, st, 'alg_fail', [cat, orig], {})
+            aw = ip.specs.call(ip, st, 'alg_warn', [cat, orig], {})
+            st.assume(ops.B(af) == z3.And(known.t, ops.B(f1) if not isinstance(f1, bool) else z3.BoolVal(f1)))
+            st.assume(ops.B(aw) == z3.Or(z3.Not(known.t), ops.B(f2) if not isinstance(f2, bool) else z3.BoolVal(f2)))
         tab[key] = (known, desc, name)
         st.ghost['$dbtab'] = tab
         st.ghost['looked_known'] = known
@@ -62,6 +72,7 @@ def setup_output_algorithm(ip, st, fr, case):
     out = st.new_obj('OutputBuffer', {'batch': fresh('batch', 'bool'), 'verbose': fresh('verbose', 'bool')})
     fr['out'] = out
     st.ghost['looked_known'] = False
+    st.ghost['orig_name'] = fr['alg_name']
     st.ghost['$ndesc'] = case.get('$ndesc')
     st.ghost['looked_desc'] = None
     st.ghost['emitted'] = 0
@@ -82,26 +93,258 @@ def out_stub(name):
 
 
 def stubs():
-    S = [out_stub(n) for n in ('good', 'fail', 'warn', 'info', 'head', 'sep')]
+    S = [out_stub(n) for n in ('good', 'fail', 'warn', 'info', 'head', 'sep', 'flush_section', '__enter__', '__exit__')]
+    S.append(Contract('OutputBuffer.is_section_empty', mode='contract', result='bool', ensures=[]))
+    S.extend(output_stubs())
+    S.extend(audit_stubs())
     S.append(Contract('Algorithm.get_since_text', mode='contract', result='opt[str]', ensures=[],
                       note='which text is shown is C03; for the status only its level (info) matters'))
     return S
 
 
+SPEC_CALL = "result == alg_step(alg_type, old.alg_name, old.program_retval)"
 SPEC = ("result == (old.program_retval if is_blank(alg_name) else "
         "(status_after(old.program_retval, len(ghost('looked_desc')) > 1 and has_some(ghost('looked_desc')[1]), "
         "len(ghost('looked_desc')) > 2 and has_some(ghost('looked_desc')[2])) if ghost('looked_known') "
         "else status_after(old.program_retval, False, True)))")
 
 
+def oa_contract():
+    """call-site view of output_algorithm: the status step, in terms of the table's per-name flags"""
+    return Contract('ssh_audit:output_algorithm', mode='contract', result='int',
+                    requires=["program_retval == 0 or program_retval == 2 or program_retval == 3"],
+                    modifies=['unknown_algs:list[str]'],
+                    ensures=["result == alg_step(alg_type, alg_name, program_retval)", "result == 0 or result == 2 or result == 3"],
+                    note='the unit proof shows the step is status_after(s0, entry has a failure note, entry has a warning note or is unknown)')
+
+
+def setup_output_algorithms(ip, st, fr, case):
+    fr['out'] = st.new_obj('OutputBuffer', {'batch': fresh('batch', 'bool'), 'verbose': fresh('verbose', 'bool')})
+    fr['title'] = 'algorithms'
+    fr['alg_db'] = st.new_dict({})
+    fr['alg_type'] = case['$cat']
+    fr['algorithms'] = st.new_symlist(fresh('algorithms', ('list', 'str')).t, 'str')
+    fr['unknown_algs'] = st.new_symlist(fresh('unknown', ('list', 'str')).t, 'str')
+    fr['is_json_output'] = fresh('json', 'bool')
+    fr['program_retval'] = fresh('retval', 'int')
+    fr['maxlen'] = fresh('maxlen', 'int')
+    fr['host_keys'] = None
+    fr['dh_modulus_sizes'] = None
+    return {}
+
+
+def symlist(st, name):
+    return st.new_symlist(fresh(name, ('list', 'str')).t, 'str')
+
+
+def make_kex(ip, st):
+    g = {n: symlist(st, n) for n in ('kex', 'key', 'cenc', 'senc', 'cmac', 'smac')}
+    comp = st.new_list(['none', 'zlib@openssh.com'])
+    lang = st.new_list([''])
+    cli = st.new_obj('SSH2_KexParty', {'_SSH2_KexParty__enc': g['cenc'], '_SSH2_KexParty__mac': g['cmac'],
+                                       '_SSH2_KexParty__compression': comp, '_SSH2_KexParty__languages': lang})
+    srv = st.new_obj('SSH2_KexParty', {'_SSH2_KexParty__enc': g['senc'], '_SSH2_KexParty__mac': g['smac'],
+                                       '_SSH2_KexParty__compression': comp, '_SSH2_KexParty__languages': lang})
+    kex = st.new_obj('SSH2_Kex', {'_SSH2_Kex__cookie': b'', '_SSH2_Kex__kex_algs': g['kex'], '_SSH2_Kex__key_algs': g['key'],
+                                  '_SSH2_Kex__client': cli, '_SSH2_Kex__server': srv, '_SSH2_Kex__follows': False,
+                                  '_SSH2_Kex__unused': 0, '_SSH2_Kex__dh_modulus_sizes': st.new_dict({}),
+                                  '_SSH2_Kex__host_keys': st.new_dict({}), '_SSH2_Kex__outputbuffer': None})
+    return kex, g
+
+
+def make_aconf(ip, st):
+    return st.new_obj('AuditConf', {'host': fresh('host', 'str'), 'port': fresh('port', 'int'), 'json': fresh('json', 'bool'),
+                                    'json_print_indent': fresh('jindent', 'bool'), 'batch': fresh('abatch', 'bool'),
+                                    'verbose': fresh('averbose', 'bool'), 'level': 'info', 'client_audit': fresh('client_audit', 'bool'),
+                                    'policy': None, 'make_policy': False, 'ssh1': True, 'ssh2': True,
+                                    'target_list': st.new_list([]), 'dheat': None, 'conn_rate_test_enabled': False,
+                                    'gex_test': '', 'skip_rate_test': fresh('skip_rate', 'bool'), 'colors': fresh('colors', 'bool'),
+                                    'debug': False, 'timeout': 5, 'timeout_set': False, 'ip_version_preference': st.new_list([])})
+
+
+def setup_output(ip, st, fr, case):
+    fr['out'] = st.new_obj('OutputBuffer', {'batch': fresh('batch', 'bool'), 'verbose': fresh('verbose', 'bool')})
+    fr['aconf'] = make_aconf(ip, st)
+    fr['banner'] = None
+    fr['header'] = st.new_list([])
+    fr['client_host'] = None
+    fr['pkm'] = None
+    fr['print_target'] = False
+    fr['dh_rate_test_notes'] = ''
+    if case['$kex']:
+        kex, g = make_kex(ip, st)
+        fr['kex'] = kex
+        fr['g_kex'], fr['g_key'], fr['g_enc'], fr['g_mac'] = g['kex'], g['key'], g['senc'], g['smac']
+    else:
+        fr['kex'] = None
+    return {}
+
+
+def two_lists(ip, st):
+    return (symlist(st, 'suppress'), symlist(st, 'notes'))
+
+
+def frame_stub(qual, result=None):
+    return Contract(qual, mode='contract', result=result, ensures=[], modifies=[],
+                    note='assumed frame: may print, does not touch the caller\'s locals (program status is a local integer)')
+
+
+def output_stubs():
+    S = [frame_stub('ssh_audit:post_process_findings', two_lists),
+         frame_stub('Algorithms.maxlen', 'int'),
+         frame_stub('ssh_audit:output_compatibility'), frame_stub('ssh_audit:output_security'),
+         frame_stub('ssh_audit:output_fingerprints'), frame_stub('ssh_audit:output_recommendations', 'bool'),
+         frame_stub('ssh_audit:output_info'), frame_stub('ssh_audit:build_struct', 'int'),
+         frame_stub('SSH2_KexDB.get_db', lambda ip, st: st.new_dict({})),
+         frame_stub('OutputBuffer.reset')]
+    return S
+
+
+def m_json_dumps(ip, st, args, kwargs):
+    return fresh('json_text', 'str')
+
+
+# ---------------------------------------------------------------------------------------------------- audit()
+def m_output(ip, st, args, kwargs):
+    """call-site model of output(): records whether an algorithm report is rendered (kex or pkm given) and returns the
+    status that the `output` unit above characterises (0, 2 or 3)"""
+    kex, pkm = kwargs.get('kex'), kwargs.get('pkm')
+    rendered = (kex is not None) or (pkm is not None)
+    st.ghost['reports'] = st.ghost['reports'] + (rendered,)
+    r = fresh('output_status', 'int')
+    st.assume(z3.Or(r.t == 0, r.t == 2, r.t == 3))
+    if rendered:
+        st.ghost['last_status'] = r
+    return r
+
+
+def m_evaluate_policy(ip, st, args, kwargs):
+    r = fresh('policy_passed', 'bool')
+    st.ghost['policy_passed'] = r
+    return r
+
+
+def banner_result(ip, st):
+    """SSH_Socket.get_banner: (banner or None, header lines, error text or None) -- any combination"""
+    c = ip.choose(st, 2)
+    banner = None
+    if c == 1:
+        banner = st.new_obj('Banner', {'_Banner__protocol': (fresh('pmaj', 'int'), fresh('pmin', 'int')), '_Banner__software': fresh('sw', ('opt', 'str')),
+                                       '_Banner__comments': fresh('comments', ('opt', 'str')), '_Banner__valid_ascii': fresh('valid_ascii', 'bool')})
+    return (banner, symlist(st, 'header'), fresh('banner_err', ('opt', 'str')))
+
+
+def packet_result(ip, st):
+    return (fresh('packet_type', 'int'), fresh('payload', 'bytes'))
+
+
+def kex_result(ip, st):
+    st.ghost['parsed'] = True
+    st.ghost['parsed_sshv'] = 2
+    return make_kex(ip, st)[0]
+
+
+def pkm_result(ip, st):
+    st.ghost['parsed'] = True
+    st.ghost['parsed_sshv'] = 1
+    return st.new_obj('SSH1_PublicKeyMessage', {})
+
+
+def audit_stubs():
+    ANY = "True"
+    return [
+        Contract('SSH_Socket.connect', mode='contract', result='opt[str]', ensures=[]),
+        Contract('SSH_Socket.listen_and_accept', mode='contract', ensures=[], may_raise={'SystemExit': ANY}),
+        Contract('SSH_Socket.get_banner', mode='contract', result=banner_result, ensures=[]),
+        Contract('SSH_Socket.send_kexinit', mode='contract', ensures=[]),
+        Contract('SSH_Socket.read_packet', mode='contract', result=packet_result, ensures=[], may_raise={'SystemExit': ANY}),
+        Contract('SSH2_Kex.parse', mode='contract', result=kex_result, ensures=[], may_raise={'struct.error': ANY, 'Exception': ANY}),
+        Contract('SSH1_PublicKeyMessage.parse', mode='contract', result=pkm_result, ensures=[], may_raise={'struct.error': ANY}),
+        Contract('HostKeyTest.run', mode='contract', ensures=[]),
+        Contract('GEXTest.run', mode='contract', ensures=[]),
+        Contract('DHEat.dh_rate_test', mode='contract', result='str', ensures=[]),
+        Contract('ssh_audit:run_gex_granular_modulus_size_test', mode='contract', result='int', ensures=[]),
+        Contract('ssh_audit:make_policy', mode='contract', ensures=[]),
+        Contract('OutputBuffer.v', mode='contract', result=lambda ip, st: st.frame['self'], ensures=[]),
+        Contract('OutputBuffer.d', mode='contract', result=lambda ip, st: st.frame['self'], ensures=[]),
+        Contract('OutputBuffer.write', mode='contract', ensures=[]),
+        Contract('Utils.is_ipv6_address', mode='contract', result='bool', ensures=[]),
+        Contract('SSH2_Kex.__str__', mode='contract', result='str', ensures=[]),
+    ]
+
+
+def setup_audit(ip, st, fr, case):
+    fr['out'] = st.new_obj('OutputBuffer', {'batch': False, 'verbose': False, 'debug': False, 'use_colors': True,
+                                            '_OutputBuffer__level': 0})
+    aconf = make_aconf(ip, st)
+    a = st.mut(aconf)
+    a.f['policy'] = st.new_obj('Policy', {}) if case['$mode'] == 'policy' else None
+    a.f['client_audit'] = case['$client']
+    a.f['target_list'] = st.new_list(['t1', 't2']) if case['$multi'] else st.new_list([])
+    a.f['ssh1'] = fresh('ssh1', 'bool')
+    a.f['ssh2'] = fresh('ssh2', 'bool')
+    fr['aconf'] = aconf
+    fr['sshv'] = None
+    fr['print_target'] = False
+    st.ghost['reports'] = ()
+    st.ghost['parsed'] = False
+    st.ghost['parsed_sshv'] = 0
+    st.ghost['last_status'] = -7
+    st.ghost['policy_passed'] = None
+    ip.models['ssh_audit:output'] = m_output
+    ip.models['ssh_audit:evaluate_policy'] = m_evaluate_policy
+    return {}
+
+
 def units():
     U = []
+    for mode in ('standard', 'policy'):
+        for multi in (False, True):
+            ens = ["implies(not ghost('parsed'), result == 1 and not any(ghost('reports')))",   # lists not obtained: status 1, no algorithm report
+                   "sum(1 for r in ghost('reports') if r) <= 1"]                            # at most one algorithm report
+            if mode == 'standard':
+                ens.append("implies(ghost('parsed'), any(ghost('reports')) and result == ghost('last_status'))")  # the report's status, unchanged
+            else:
+                ens.append("implies(ghost('parsed_sshv') == 2, ghost('policy_passed') is not None and result == (0 if ghost('policy_passed') else 3))")
+                ens.append("implies(ghost('parsed_sshv') == 1, ghost('policy_passed') is not None and result == (0 if ghost('policy_passed') else 3))")
+                ens.append("implies(ghost('policy_passed') is not None, ghost('parsed'))")
+            U.append(Unit(Contract(
+                'ssh_audit:audit', setup=setup_audit, cases=[{'$mode': mode, '$multi': multi, '$client': False}],
+                requires=["aconf.port >= 1 and aconf.port <= 65535"],     # established by AuditConf.__setattr__ (C18)
+                raises={},
+                may_raise={'SystemExit': "not ghost('parsed') and not any(ghost('reports'))",
+                           # an exception escaping a parser ends through the wrapper's catch-all (status 255): never 0/2/3 (C09 counts them)
+                           'struct.error': "not ghost('parsed') and not any(ghost('reports'))"},
+                ensures=ens),
+                harness=None))
+    U.append(Unit(Contract(
+        'ssh_audit:output', setup=setup_output, cases=[{'$kex': True}], raises={},
+        ensures=["result == status_after(0, any_fail('kex', g_kex) or any_fail('key', g_key) or any_fail('enc', g_enc) or any_fail('mac', g_mac), "
+                 "any_warn('kex', g_kex) or any_warn('key', g_key) or any_warn('enc', g_enc) or any_warn('mac', g_mac))"]),
+        harness=None))
+    U.append(Unit(Contract(
+        'ssh_audit:output', setup=setup_output, cases=[{'$kex': False}], raises={},
+        ensures=["result == 0"]),
+        harness=None))
+    for cat in ('kex', 'key', 'enc', 'mac'):
+        U.append(Unit(Contract(
+            'ssh_audit:output_algorithms', setup=setup_output_algorithms, cases=[{'$cat': cat}], mode='contract', result='int',
+            requires=["program_retval == 0 or program_retval == 2 or program_retval == 3"], raises={},
+            modifies=['unknown_algs:list[str]'],
+            ensures=["result == fold_algs(alg_type, algorithms, old.program_retval)",
+                     "result == status_after(old.program_retval, any_fail(alg_type, algorithms), any_warn(alg_type, algorithms))",
+                     "result == 0 or result == 2 or result == 3"],
+            use=["fold_is_worst(alg_type, algorithms, old.program_retval)"],
+            loops={1: dict(invariant=["program_retval == fold_algs(alg_type, algorithms[:_k], old.program_retval)",
+                                      "program_retval == 0 or program_retval == 2 or program_retval == 3"],
+                           types={'algorithm': 'str'}, modifies=['unknown_algs'])}),
+            harness=None))
     for cat, nd in (('kex', 1), ('kex', 2), ('kex', 3), ('kex', 4), ('enc', 3), ('key', 4), ('mac', 2)):
         U.append(Unit(Contract(
             'ssh_audit:output_algorithm', setup=setup_output_algorithm, cases=[{'$cat': cat, '$ndesc': nd}],
             requires=["program_retval == 0 or program_retval == 2 or program_retval == 3"],
             raises={},
-            ensures=[SPEC.replace('is_blank(alg_name)', 'is_blank(old.alg_name)'), "result == 0 or result == 2 or result == 3"],
+            ensures=[SPEC.replace('is_blank(alg_name)', 'is_blank(old.alg_name)'), "result == 0 or result == 2 or result == 3", SPEC_CALL],
             loops={2: dict(invariant=["implies(level == 'fail', has_level(texts, 'fail') == (has_level(at_entry.texts, 'fail') or has_some(alg_desc[idx][:_k])))",
                                       "implies(level == 'warn', has_level(texts, 'warn') == (has_level(at_entry.texts, 'warn') or has_some(alg_desc[idx][:_k])))",
                                       "implies(level != 'fail', has_level(texts, 'fail') == has_level(at_entry.texts, 'fail'))",
